@@ -82,22 +82,96 @@ Definition enc_obs opidx t pending := enc_obs_x opidx t pending 0.
 Definition clear_io (t : term) : term :=
   mkTerm (tmain t) (talt t) (onalt t) (vflags t) (vints t) (vstrs t) (kbm t) (kba t) [] [].
 
+(* ---- decoding an observed state (step mode: the model continues from the
+   state the implementation was seen in) ---- *)
+Definition dec_style (l : list Z) : style :=
+  match l with fgw :: bgw :: _ => unpack fgw bgw | _ => default_style end.
+
+(* cells of a row record, after the [3; which; y] prefix *)
+Fixpoint dec_cells (fuel : nat) (l : list Z) : list cell :=
+  match fuel with
+  | O => []
+  | S f =>
+      match l with
+      | w :: fgw :: bgw :: _ :: n :: rest =>
+          mkCell (zfirstn n rest) w (unpack fgw bgw) :: dec_cells f (zskipn n rest)
+      | _ => []
+      end
+  end.
+
+Definition dec_screen (hdr : list Z) (rws : list (list cell)) : screen :=
+  match hdr with
+  | _ :: _ :: w :: h :: x :: y :: sx :: sy :: t :: b :: aw :: st =>
+      mkScreen rws w h x y sx sy t b (negb (aw =? 0)) (dec_style st) 0 0 []
+  | _ => init_screen 1 1
+  end.
+
+Fixpoint rows_of (which : Z) (recs : list (list Z)) : list (list cell) :=
+  match recs with
+  | [] => []
+  | (3 :: wh :: _ :: cells) :: rest =>
+      if wh =? which then dec_cells (length cells) cells :: rows_of which rest else rows_of which rest
+  | _ :: rest => rows_of which rest
+  end.
+Fixpoint hdr_of (which : Z) (recs : list (list Z)) : list Z :=
+  match recs with
+  | [] => []
+  | (2 :: wh :: r) :: rest => if wh =? which then 2 :: wh :: r else hdr_of which rest
+  | _ :: rest => hdr_of which rest
+  end.
+Fixpoint rec_of (tag : Z) (recs : list (list Z)) : list Z :=
+  match recs with
+  | [] => []
+  | (t :: r) :: rest => if t =? tag then r else rec_of tag rest
+  | [] :: rest => rec_of tag rest
+  end.
+Fixpoint strs_of (recs : list (list Z)) : list (list Z) :=
+  match recs with
+  | [] => []
+  | (6 :: _ :: s) :: rest => s :: strs_of rest
+  | _ :: rest => strs_of rest
+  end.
+Definition dec_kbd (l : list Z) : kbd * list Z :=
+  match l with
+  | f :: n :: rest => (mkKbd f (zfirstn n rest), zskipn n rest)
+  | _ => (kbd0, [])
+  end.
+Definition dec_term (recs : list (list Z)) : term :=
+  let regs := rec_of 5 recs in
+  let alt := match regs with a :: _ => negb (a =? 0) | _ => false end in
+  let flags := map (fun v => negb (v =? 0)) (zfirstn 6 (zskipn 1 regs)) in
+  let ints := zfirstn 3 (zskipn 7 regs) in
+  let '(km, r1) := dec_kbd (zskipn 10 regs) in
+  let '(ka, _) := dec_kbd r1 in
+  mkTerm (dec_screen (hdr_of 0 recs) (rows_of 0 recs)) (dec_screen (hdr_of 1 recs) (rows_of 1 recs))
+    alt flags ints (strs_of recs) km ka [] [].
+
 (* ---- case execution ---- *)
 (* line tags: 100 header [mode; grid; W; H], 101 width table, 110 feed bytes,
    111 resize w h, 199 end *)
-Record cst := mkCst { c_t : term; c_pend : list Z; c_tbl : list Z; c_grid : bool; c_idx : Z }.
+Record cst := mkCst { c_t : term; c_pend : list Z; c_tbl : list Z; c_grid : bool; c_idx : Z;
+                      c_load : list (list Z) }.
+
+(* observation mask: bit i set = print records with tag i; 0 = everything *)
+Definition masked (mask : Z) (recs : list (list Z)) : list (list Z) :=
+  if mask =? 0 then recs
+  else filter (fun r => match r with t :: _ => Z.testbit mask t | [] => false end) recs.
 
 Definition run_op (st : cst) (line : list Z) : cst * list (list Z) :=
   match line with
   | 110 :: bs =>
       if crashed (c_t st) then (st, enc_obs (c_idx st) (c_t st) (zlen (c_pend st))) else
       let '(t', pend') := run_bytes (wc_of (c_tbl st)) (c_grid st) (clear_io (c_t st)) (c_pend st ++ bs) in
-      (mkCst t' pend' (c_tbl st) (c_grid st) (c_idx st + 1), enc_obs (c_idx st) t' (zlen pend'))
+      (mkCst t' pend' (c_tbl st) (c_grid st) (c_idx st + 1) [], enc_obs (c_idx st) t' (zlen pend'))
   | 111 :: w :: h :: _ =>
       if crashed (c_t st) then (st, enc_obs (c_idx st) (c_t st) (zlen (c_pend st))) else
       let t' := resize w h (clear_io (c_t st)) in
       let xt := match c_pend st with 27 :: _ => trLockedRead | _ => 0 end in
-      (mkCst t' (c_pend st) (c_tbl st) (c_grid st) (c_idx st + 1), enc_obs_x (c_idx st) t' (zlen (c_pend st)) xt)
+      (mkCst t' (c_pend st) (c_tbl st) (c_grid st) (c_idx st + 1) [], enc_obs_x (c_idx st) t' (zlen (c_pend st)) xt)
+  | 120 :: r =>     (* one record of an observed state to continue from *)
+      (mkCst (c_t st) (c_pend st) (c_tbl st) (c_grid st) (c_idx st) (c_load st ++ [r]), [])
+  | 121 :: _ =>     (* load the accumulated records *)
+      (mkCst (dec_term (c_load st)) [] (c_tbl st) (c_grid st) (c_idx st) [], [])
   | _ => (st, [])
   end.
 
@@ -109,7 +183,8 @@ Fixpoint run_ops (st : cst) (lines : list (list Z)) : list (list Z) :=
 
 Definition run_case (lines : list (list Z)) : list (list Z) :=
   match lines with
-  | (100 :: mode :: grid :: w :: h :: _) :: (101 :: tbl) :: rest =>
-      run_ops (mkCst (init_term w h) [] tbl (negb (grid =? 0)) 0) rest
+  | (100 :: mode :: grid :: w :: h :: more) :: (101 :: tbl) :: rest =>
+      masked (match more with m :: _ => m | [] => 0 end)
+        (run_ops (mkCst (init_term w h) [] tbl (negb (grid =? 0)) 0 []) rest)
   | _ => [[0]]
   end.
